@@ -132,15 +132,20 @@ def cross_check(cases, impl, model):
     groups = {}
     for line, res, mod in zip(cases, impl, model):
         t = line.split()
-        groups.setdefault(" ".join(t[:-1]), {})[t[-1]] = (res.split("\t")[0], mod.split("\t")[0])
+        ep = [x[3:] for x in res.split("\t")[1:] if x.startswith("EP=")]
+        groups.setdefault(" ".join(t[:-1]), {})[t[-1]] = (res.split("\t")[0], mod.split("\t")[0], ep[0] if ep else None)
     bad = []
     for key, per in groups.items():
         present = {c: r for c, r in per.items() if r[0] != "absent"}
         if len(present) < 2: continue
         ref_c = "sh" if "sh" in present else sorted(present)[0]
-        ref, ref_m = present[ref_c]
-        for c, (r, m) in present.items():
-            if r == ref: continue
+        ref, ref_m, ref_ep = present[ref_c]
+        for c, (r, m, ep) in present.items():
+            if r == ref:
+                # same outcome: an error must also report the same position for itself (Error::position) in every configuration
+                if ep is not None and ref_ep is not None and ep != ref_ep:
+                    bad.append((key + " " + c, "configuration %r reports error position %s but %r reports %s (same error class %s)" % (c, ep, ref_c, ref_ep, r)))
+                continue
             def documented(cfg, res, mod):
                 if res != mod: return False          # not what the proved model predicts at this configuration
                 if "a" not in cfg and "s" not in cfg and res.startswith("err:message"): return True
